@@ -6,6 +6,8 @@ CONSTANTS
   MaxTdErr = 1
   MaxAttempts = 2
   AllowShutdown = TRUE
+  NContents = 4
+  FreshOnly = TRUE
   Preexisting = FALSE
   Atomic = TRUE
   MaxStimuli = 7
